@@ -290,6 +290,10 @@ def run_unit(u):
             if stuck >= 3:
                 break                       # a printer that does not terminate costs a full budget per call: enough evidence
             p = sels.render(sels.gen_list(rng, rng.choice([0, 1, 2, 3]), cfg))
+            if rng.random() < .2:
+                # long values: repr() of a compiled pattern is cut after 200 characters (unterminated quote, many escapes)
+                body = ''.join(rng.choice(['a', 'b.', '-', 'x-y.', ' ', "'", '"', '\\\\', 'é', '(', '$']) for _ in range(rng.choice([40, 90, 150])))
+                p = p + '[title%s"%s"%s]' % (rng.choice(['=', '~=', '*=', '|=', '^=']), body.replace('"', '\\"'), rng.choice(['', ' i']))
             ns = rng.choice(C05.NSMAPS)
             cu = rng.choice([None, C05.CUSTOM])
             st, c = monitors.guarded_call(sv.compile, p, ns, custom=cu)
